@@ -517,6 +517,9 @@ func Settle() {
 		return
 	}
 	x.point(pending{kind: OpSettle})
+	// quiescence is a barrier: whatever the other threads did before they blocked happened before what
+	// the caller does next (a real driver would have synchronised with them to know they are done)
+	raceAcquire(unsafe.Pointer(&x.syncWord))
 }
 
 // Spin replaces runtime.Gosched() inside spin loops: the thread is disabled until some other thread
@@ -848,6 +851,21 @@ func GoNamed(name string, fn func()) {
 	x.newThread(name, fn, pending{kind: OpStart})
 }
 
+// RaceReleaseMerge / RaceAcquire let a harness component that stands for a synchronised real-world
+// object (a hot source keeps its subscriber list under a lock) contribute the happens-before edge that
+// object would give. No-ops outside -race builds.
+//
+//go:norace
+func RaceReleaseMerge(p unsafe.Pointer) { raceReleaseMerge(p) }
+
+//go:norace
+func RaceAcquire(p unsafe.Pointer) { raceAcquire(p) }
+
+// AbortHook, if set, is called with 0 right before the leftover threads of an execution are torn down
+// and with 1 right after: race-detector output produced in between belongs to the teardown (deferred
+// functions run with no-op shims), not to the execution.
+var AbortHook func(phase int)
+
 // WatchdogSeconds bounds the wall time of one execution; exceeding it is a machinery error.
 var WatchdogSeconds = 60
 
@@ -880,6 +898,9 @@ func Run(o Options, prefix []int, body func()) *Result {
 	startWatchdog()
 	<-x.done
 	raceAcquire(unsafe.Pointer(&x.syncWord))
+	if AbortHook != nil {
+		AbortHook(0)
+	}
 	x.aborting = true
 	for i := 0; i < x.nthreads; i++ {
 		t := x.threads[i]
@@ -898,6 +919,9 @@ func Run(o Options, prefix []int, body func()) *Result {
 			<-x.exited
 			syncOn()
 		}
+	}
+	if AbortHook != nil {
+		AbortHook(1)
 	}
 	x.running = nil
 	for i := 0; i < x.ntimers; i++ {
